@@ -60,7 +60,39 @@ def padded(draw):
     return "POST %s HTTP/1.1\r\n%sContent-Length: %d\r\n\r\n%s" % (target, hdrs, blen, body) + nxt
 
 
+@st.composite
+def at_limit(draw):
+    """request whose request line / one field sits exactly at, one under or one over the configured limit of its config"""
+    ci = draw(st.sampled_from([1, 3, 4]))
+    c = CFGS[ci]
+    d = draw(st.sampled_from([-1, 0, 0, 1]))
+    line_limit = c.get("limit_request_line", 4094)
+    field_limit = c.get("limit_request_field_size", 8190)
+    which = draw(st.sampled_from(["line", "field"]))
+    target = "/"
+    hdr = "X-A: v\r\n"
+    if which == "line" or "limit_request_field_size" not in c:
+        n = line_limit + d - len("GET  HTTP/1.1")
+        target = "/" + "a" * max(0, n - 1)
+    else:
+        n = field_limit + d - 2 - len("X-A: ")       # the limit counts the line with its CRLF
+        hdr = "X-A: " + "v" * max(0, n) + "\r\n"
+    tail = draw(st.sampled_from(["", "GET /n HTTP/1.1\r\n\r\n"]))
+    return {"stream": "GET %s HTTP/1.1\r\n%s\r\n%s" % (target, hdr, tail), "cfg": ci}
+
+
 def strategy(tier):
+    common = {
+        "multi": st.lists(st.lists(st.integers(0, 20000), min_size=2, max_size=12), min_size=2, max_size=6),
+        "pairs": st.lists(st.tuples(st.integers(0, 20000), st.integers(0, 20000)), min_size=5, max_size=30).map(
+            lambda l: [list(x) for x in l]),
+        "all_pairs": st.just(tier == "thorough"),
+    }
+    lim = st.tuples(at_limit(), st.fixed_dictionaries(common)).map(lambda t: dict(t[1], **t[0]))
+    return st.one_of(_general(tier), _general(tier), _general(tier), lim)
+
+
+def _general(tier):
     return st.fixed_dictionaries({
         "stream": st.one_of(gen_http.stream(obfuscate=True), conforming_pipeline(), padded()),
         "cfg": st.sampled_from([0, 0, 0, 1, 2, 3, 4, 5, 6]),
